@@ -157,6 +157,7 @@ def run(prop, tier):
 def replay(prop, path):
     """Re-run a stored case: the event's call is applied to a world rebuilt to the logged pre-state."""
     out = C.Outcome(prop, "quick")
+    out.no_evidence = True
     wd = C.workdir("domr")
     try:
         v = json.load(open(path))
